@@ -751,12 +751,10 @@ def subset_glyphs(self, s):
             c.Class2Record = [c.Class2Record[i] for i in class2_map]
         self.Class1Count = len(class1_map)
         self.Class2Count = len(class2_map)
-        # If only Class2 0 left, no need to keep anything.
-        return bool(
-            self.Class1Count
-            and (self.Class2Count > 1)
-            and self.Coverage.subset(s.glyphs)
-        )
+        # If only Class2 0 is left the subtable positions nothing, but it still ends the
+        # lookup for the first glyphs it covers: Lookup.subset_glyphs drops it unless another
+        # subtable follows.
+        return bool(self.Class1Count and self.Coverage.subset(s.glyphs))
     else:
         assert 0, "unknown format: %s" % self.Format
 
@@ -1566,9 +1564,19 @@ def closure_glyphs(self, s, cur_glyphs=None):
         st.closure_glyphs(s, cur_glyphs)
 
 
+def _positions_nothing(st):
+    if isinstance(st, otTables.ExtensionPos):
+        st = st.ExtSubTable
+    return isinstance(st, otTables.PairPos) and st.Format == 2 and st.Class2Count <= 1
+
+
 @_add_method(otTables.Lookup)
 def subset_glyphs(self, s):
     self.SubTable = [st for st in self.SubTable if st and st.subset_glyphs(s)]
+    # A class pair subtable with only Class2 0 left must stay in front of the subtables it
+    # shadows; at the end of the lookup there is no need to keep it.
+    while self.SubTable and _positions_nothing(self.SubTable[-1]):
+        self.SubTable.pop()
     self.SubTableCount = len(self.SubTable)
     if hasattr(self, "MarkFilteringSet") and self.MarkFilteringSet is not None:
         if self.MarkFilteringSet not in s.used_mark_sets:
